@@ -70,10 +70,6 @@ def gen_cases(ctx):
                 n = [max(2, v) for v in n]
                 n[ax] = 1
             case.update({"n": n, "prop": ax, "fixed": fixed, "keep_all": rng.random() < 0.4, "direction": rng.choice("+-")})
-            if case["keep_all"]:
-                # keep_all_components cannot be placed on a resolved RectilinearGrid (stack of per-axis area weights of
-                # different shapes raises; reported under C16) -> the all-component flux is exercised on the UniformGrid path
-                case["grid"] = "uniform"
         else:
             n = [rng.randint(1, 3) for _ in range(3)]
             if all(v == 1 for v in n):
